@@ -12,7 +12,18 @@ Decided from the parsed SQL program (effective routines after migration replay) 
   R6  closed world: only the listed routines / functions write the counter tables; cleanup deletes are keyed and filtered
   R7  commit_batch_update hands over exactly the root-group staging sums of that update, once
   R8  no UPDATE changes the job columns the trigger treats as immutable
-Not decided: InnoDB locking / token-shard concurrency and the inductive argument over whole histories.
+  R9  counter maintenance is unconditional in what it carries: on every path through jobs_after_update (IF / ELSE / LEAVE / SIGNAL, guards evaluated
+      three-valued over the exhaustively enumerated finite state x flag domain, everything else UNKNOWN with case splits) the upsert carrying a column
+      runs exactly once wherever the recomputation changes that column; in cancel_job_group / cancel_batch the counter move, the clearing of the
+      cancellable rows and the cancellation mark run under one and the same path condition; in commit_batch_update the staged roll-up runs whenever
+      the commit flag is set (extra guards are decided by order reasoning over n_jobs >= 1 / update_id == 1); _create_jobs row filters only drop all-zero rows
+  R10 no cancellation mark for a group of an uncommitted update: job_groups_cancelled is written only by the cancel procedures, for their own argument;
+      every Python `CALL cancel_job_group` is for the root group or dominated by the row-found outcome of a query keyed by the same (batch, group) whose
+      WHERE implies "creating update committed OR root" (otherwise commit_batch_update's unconditional roll-up counts cancelled jobs as ready)
+  R11 every call path to commit_batch_update refuses a batch whose root group is cancelled
+  R12 every reader of the token-sharded counter tables reads SUM over all shards
+cores_mcpu is symbolic throughout: amount columns are compared through their linear normal form a + b * cores_mcpu (R1, R2).
+Not decided: InnoDB locking / token-shard concurrency (incl. the check-then-commit race of R11) and the inductive argument over whole histories.
 """
 from __future__ import annotations
 
@@ -33,11 +44,13 @@ META = dict(
     category='other',
     text='Per-statement obligations of the counter invariant, each decided on every writer of the counter tables: truth-table equality of the '
          'trigger deltas with the recomputation spec over the complete finite job-state domain, insert/update symmetry, cancel symmetry, '
-         'ancestor fan-out, staging hand-over and a closed-world writer set. Static because the counters are maintained by SQL text whose '
+         'ancestor fan-out, staging hand-over, a closed-world writer set, unconditional maintenance on every path of the trigger / procedures, the caller-side '
+         'guards (committed-or-root before a group cancel, not-cancelled before a commit) that the unconditional roll-up relies on, and shard-summing readers. Static because the counters are maintained by SQL text whose '
          'shape determines the increments on every path; the inductive argument over histories and lock semantics are not decided.',
     note='Trusted: our SQL parser/evaluator (engines/sqlast.py, sqleval.py), migration replay order from build.yaml; assumes jobs.always_run, '
          'cores_mcpu, inst_coll, job_group_id are immutable (as the trigger comments state) and MySQL fires jobs_after_update for every UPDATE of jobs.',
-    technique='static analysis: SQL AST rules + exhaustive truth tables over the job-state domain + closed-world writer scan',
+    technique='static analysis: SQL AST rules + exhaustive truth tables over the finite job-state/flag domain (cores symbolic, linear normal form) + abstract path '
+              'enumeration with three-valued guards + CFG dominance of guard queries in Python callers + closed-world writer/reader scans',
     design_ref='DESIGN.md §3 C01',
 )
 
@@ -75,6 +88,9 @@ USER_COUNTERS = ['n_ready_jobs', 'n_running_jobs', 'n_creating_jobs', 'ready_cor
 CANC_COUNTERS = ['n_ready_cancellable_jobs', 'ready_cancellable_cores_mcpu', 'n_creating_cancellable_jobs', 'n_running_cancellable_jobs',
                  'running_cancellable_cores_mcpu']
 STAGE_COUNTERS = ['n_jobs', 'n_ready_jobs', 'ready_cores_mcpu']
+# core totals are the like-named job counts weighted by the job's (symbolic) cores_mcpu
+CORES_OF = {'ready_cores_mcpu': 'n_ready_jobs', 'running_cores_mcpu': 'n_running_jobs', 'ready_cancellable_cores_mcpu': 'n_ready_cancellable_jobs',
+            'running_cancellable_cores_mcpu': 'n_running_cancellable_jobs'}
 
 
 def _find_inserts(body, table: str) -> List[N]:
@@ -99,7 +115,10 @@ def r1_trigger(ctx: Ctx, prog: sf.SqlProgram) -> None:
     ctx.need(gc_var is not None, 'jobs_after_update: group-cancelled lookup not recognised')
 
     points = list(itertools.product(STATES, STATES, (0, 1), (0, 1), (0, 1), (0, 1)))
-    CORES = 7
+    cores_atoms = {'old.cores_mcpu', 'new.cores_mcpu'}
+
+    def is_cores(n: N) -> bool:
+        return n.kind == 'col' and text(n).lower() in cores_atoms
 
     def check_table(table: str, counters: List[str]):
         inserts = _find_inserts(a.body, table)
@@ -115,19 +134,26 @@ def r1_trigger(ctx: Ctx, prog: sf.SqlProgram) -> None:
             atoms = {text(c).lower() for c in sf.cols_in(e)}
             allowed = {'old.state', 'new.state', 'old.cancelled', 'new.cancelled', 'old.always_run', 'new.always_run', 'old.cores_mcpu', 'new.cores_mcpu', gc_var}
             ctx.need(atoms <= allowed, f'jobs_after_update: delta for {col} depends on unexpected inputs {sorted(atoms - allowed)}')
+            # linear normal form  a + b * cores_mcpu  (cores stays symbolic): a and b are truth-tabled over the finite state / flag domain
+            lin = cf.linear_in(e, is_cores)
+            ctx.need(lin is not None, f'jobs_after_update: delta for {col} is not linear in cores_mcpu: {text(e)[:120]}')
+            assert lin is not None
+            want_a, want_b = (None, CORES_OF[col]) if col in CORES_OF else (col, None)
             wrong = None
-            for (os_, ns, oc, nc, ar, gc) in points:
-                vals = {'old.state': os_, 'new.state': ns, 'old.cancelled': oc, 'new.cancelled': nc, 'old.always_run': ar, 'new.always_run': ar,
-                        'old.cores_mcpu': CORES, 'new.cores_mcpu': CORES, gc_var: gc}
-                got = ev(e, lambda c: vals[text(c).lower()])
-                want = _spec(col, ns, int(nc or gc), ar, CORES) - _spec(col, os_, int(oc or gc), ar, CORES)
-                if got != want:
-                    wrong = (os_, ns, oc, nc, ar, gc, got, want)
+            for part, got_e, want_col in (('', lin[0], want_a), (' per unit of cores_mcpu', lin[1], want_b)):
+                for (os_, ns, oc, nc, ar, gc) in points:
+                    vals = {'old.state': os_, 'new.state': ns, 'old.cancelled': oc, 'new.cancelled': nc, 'old.always_run': ar, 'new.always_run': ar, gc_var: gc}
+                    got = ev(got_e, lambda c: vals[text(c).lower()]) if got_e is not None else 0
+                    want = (_spec(want_col, ns, int(nc or gc), ar, 1) - _spec(want_col, os_, int(oc or gc), ar, 1)) if want_col is not None else 0
+                    if got != want:
+                        wrong = (os_, ns, oc, nc, ar, gc, got, want, part)
+                        break
+                if wrong:
                     break
             if wrong:
-                os_, ns, oc, nc, ar, gc, got, want = wrong
-                ctx.bad('R1', cons, f'transition {os_}->{ns} (cancelled {oc}->{nc}, always_run={ar}, group_cancelled={gc}) changes {col} by {got}, '
-                        f'recomputation from job state gives {want}', r.file, r.line_of(st))
+                os_, ns, oc, nc, ar, gc, got, want, part = wrong
+                ctx.bad('R1', cons, f'transition {os_}->{ns} (cancelled {oc}->{nc}, always_run={ar}, group_cancelled={gc}) changes {col} by {got}{part}, '
+                        f'recomputation from job state gives {want}{part}', r.file, r.line_of(st))
             else:
                 ctx.ok('R1', cons, {'points': len(points)})
             # insert value == on-duplicate increment
@@ -160,14 +186,17 @@ def r1_trigger(ctx: Ctx, prog: sf.SqlProgram) -> None:
     # R5 fan-out of the cancellable row over self and ancestors
     _check_fanout(ctx, 'R5', f'{r.file}::jobs_after_update::{CANC_TBL}', cst, cins, r.file, r.line_of(cst),
                   batch='new.batch_id', group='new.job_group_id', update='new.update_id', inst_coll='new.inst_coll')
-    r9_trigger_net_effect(ctx, r, gc_var, points, CORES)
+    r9_trigger_paths(ctx, r, gc_var, points)
 
 
 # ------------------------------------------------------------------------------------------------
-def r9_trigger_net_effect(ctx: Ctx, r: sf.Routine, gc_var: str, points: List[tuple], cores: int) -> None:
-    """R1 compares the delta EXPRESSIONS with the spec; this rule runs the whole trigger body (variables, IF/ELSE, LEAVE, SIGNAL)
-    on every domain point and compares what is actually APPLIED: an upsert wrapped in a "something changed" guard that forgets one
-    of the deltas it carries, an early exit, or an ELSE arm without the upsert all leave the expressions right and the counters wrong."""
+def r9_trigger_paths(ctx: Ctx, r: sf.Routine, gc_var: str, points: List[tuple]) -> None:
+    """R1 compares the delta EXPRESSIONS with the spec; this rule decides a control-flow fact: on every path through the trigger body the upsert
+    that carries a counter column is executed (exactly once) whenever the recomputation changes that column.  Abstract execution: the finite
+    domain (old/new state enum x cancelled x always_run x group-cancelled) is enumerated exhaustively, every guard is evaluated three-valued,
+    anything outside the domain (cores, tokens, RAND, table contents) is UNKNOWN and an undecidable guard is a case split.  An upsert wrapped in a
+    "something changed" guard that forgets one of the deltas it carries, an early exit or an ELSE arm without the upsert leave the expressions
+    right and the counters wrong."""
     a = r.ast
     what = 'jobs_after_update'
 
@@ -180,45 +209,48 @@ def r9_trigger_net_effect(ctx: Ctx, r: sf.Routine, gc_var: str, points: List[tup
 
     tables = {USER_TBL: USER_COUNTERS, CANC_TBL: CANC_COUNTERS}
     inserts = {t: _find_inserts(a.body, t) for t in tables}
+    carried = {t: {c for st in inserts[t] for c in sr.insert_colmap(st)[0]} for t in tables}
     guards = {id(st): g for st, g in sf.guarded_statements(a.body)}
-    sets = {}
+    sets: Dict[str, List[N]] = {}
     for st in sf.all_statements(a.body):
         if st.kind == 'set':
             for t, v in st.assigns:
                 if sr.is_var(t):
                     sets.setdefault(t.parts[0].lower(), []).append(v)
-    it = cf.Interp(lambda name: cf.UNKNOWN, lambda st: None, set(tables), what)
-    first_bad: Dict[Tuple[str, str], Tuple[tuple, Any, int, cf.Run]] = {}
+    pe = cf.PathEnum(lambda name: cf.UNKNOWN, lambda st: None, set(tables), what)
+    first_bad: Dict[Tuple[str, str], Tuple[tuple, int, int, cf.Run]] = {}
     undecided: Dict[Tuple[str, str], tuple] = {}
-    n_runs = 0
+    n_paths = 0
     for pt in points:
         (os_, ns, oc, nc, ar, gc) = pt
-        vals = {'old.state': os_, 'new.state': ns, 'old.cancelled': oc, 'new.cancelled': nc, 'old.always_run': ar, 'new.always_run': ar,
-                'old.cores_mcpu': cores, 'new.cores_mcpu': cores}
-        it.atoms = lambda name, vals=vals: vals.get(name, cf.UNKNOWN)
-        it.into_hook = into_hook_for(gc)
-        runs = [x for x in it.run(a.body) if not x.aborted]
-        n_runs += len(runs)
+        vals = {'old.state': os_, 'new.state': ns, 'old.cancelled': oc, 'new.cancelled': nc, 'old.always_run': ar, 'new.always_run': ar}
+        pe.atoms = lambda name, vals=vals: vals.get(name, cf.UNKNOWN)
+        pe.into_hook = into_hook_for(gc)
+        runs = [x for x in pe.run(a.body) if not x.aborted]
+        n_paths += len(runs)
         if not runs:
-            continue  # the trigger rejects this transition: the UPDATE fails as a whole and nothing changes
+            continue  # SIGNAL on every path: the UPDATE is rejected as a whole and nothing changes
         for tbl, cols in tables.items():
             for col in cols:
-                if (tbl, col) in first_bad:
+                if (tbl, col) in first_bad or col not in carried[tbl]:
+                    continue  # a column no upsert carries is R1's finding
+                base = CORES_OF.get(col, col)
+                want = _spec(base, ns, int(nc or gc), ar, 1) - _spec(base, os_, int(oc or gc), ar, 1)
+                if want == 0:
+                    continue  # nothing to apply: executing the upsert or not makes no difference
+                times = [sum(x.times_executed(st) for st in inserts[tbl]) for x in runs]
+                if all(t == 1 for t in times):
                     continue
-                want = _spec(col, ns, int(nc or gc), ar, cores) - _spec(col, os_, int(oc or gc), ar, cores)
-                nets = [x.net(tbl, col) for x in runs]
-                if all(v is not cf.UNKNOWN and v == want for v in nets):
-                    continue
-                if all(v is not cf.UNKNOWN and v != want for v in nets):
-                    first_bad[(tbl, col)] = (pt, nets[0], want, runs[0])
+                if all(t != 1 for t in times):
+                    first_bad[(tbl, col)] = (pt, times[0], want, runs[0])
                 else:
                     undecided.setdefault((tbl, col), pt)
-    ctx.unit('trigger_body_executions', n_runs)
+    ctx.unit('trigger_paths_enumerated', n_paths)
 
     def explain(run: cf.Run, tbl: str) -> str:
-        skipped = [st for st in inserts[tbl] if not run.executed(st)]
+        skipped = [st for st in inserts[tbl] if not run.times_executed(st)]
         if not skipped:
-            return f'the executed INSERT into {tbl} carries a different amount'
+            return f'the upsert into {tbl} runs more than once'
         parts = []
         for st in skipped:
             g = guards.get(id(st), ())
@@ -238,17 +270,18 @@ def r9_trigger_net_effect(ctx: Ctx, r: sf.Routine, gc_var: str, points: List[tup
         for col in cols:
             cons = f'sql::jobs_after_update::{tbl}.{col}::applied on every path'
             if (tbl, col) in first_bad:
-                (os_, ns, oc, nc, ar, gc), got, want, run = first_bad[(tbl, col)]
+                (os_, ns, oc, nc, ar, gc), times, want, run = first_bad[(tbl, col)]
                 st0 = inserts[tbl][0] if inserts[tbl] else None
+                unit = ' x cores_mcpu' if col in CORES_OF else ''
                 ctx.bad('R9', cons, f'UPDATE jobs {os_}->{ns} (cancelled {oc}->{nc}, always_run={ar}, group_cancelled={gc}): recomputation from the job\'s state changes '
-                        f'{col} by {want}, the trigger body as a whole applies {got}: {explain(run, tbl)}. The counter keeps the stale amount for ever '
-                        '(guards around counter maintenance must be true whenever ANY of the deltas the statement carries is non-zero)', r.file,
+                        f'{col} by {want}{unit}, but on that path {explain(run, tbl)}. The counter keeps the stale amount for ever '
+                        '(a guard around counter maintenance must be true whenever ANY of the deltas the statement carries is non-zero)', r.file,
                         r.line_of(st0) if st0 is not None else r.line)
-            elif (tbl, col) not in undecided:
+            elif (tbl, col) not in undecided and col in carried[tbl]:
                 ctx.ok('R9', cons, {'points': len(points)})
     if undecided and not first_bad:
         (tbl, col), pt = sorted(undecided.items())[0]
-        raise AnalysisError(f'jobs_after_update: whether {tbl}.{col} is maintained at {pt} depends on a condition outside the analysed domain')
+        raise AnalysisError(f'jobs_after_update: whether the upsert carrying {tbl}.{col} runs at {pt} depends on a condition outside the analysed domain')
 
 
 def _check_fanout(ctx: Ctx, rule: str, cons: str, st: N, ins: Dict[str, N], file: str, line: int, batch: str, group: str, update: Optional[str], inst_coll: Optional[str]) -> None:
@@ -303,28 +336,40 @@ def r2_audit(ctx: Ctx) -> None:
         col = alias.lower()[len('actual_'):]
         inner = sr.unwrap_sum(c)
         ctx.need(inner is not None, f'check_incremental: {alias} is not a SUM')
-        wrong = None
-        for state, marked_job, ar, gc in itertools.product(STATES, (0, 1), (0, 1), (0, 1)):
-            CORES = 7
+        if col not in USER_COUNTERS:
+            raise AnalysisError(f'check_incremental: unknown audited column {col}')
 
-            def env(cn: N, depth=0):
-                name = text(cn).lower()
-                last = name.split('.')[-1]
-                if name == f'{lat_alias}.cancelled':
-                    return 1 if gc else None
-                if last in vcols and len(cn.parts) == 1 and text(vcols[last]).lower() != name:
-                    return ev(vcols[last], env)
-                return {'state': state, 'cores_mcpu': CORES, 'always_run': ar, 'cancelled': marked_job}[last]
-            got = ev(inner, env)
-            want = _spec(col, state, int(marked_job or gc), ar, CORES) if col in USER_COUNTERS else None
-            if want is None:
-                raise AnalysisError(f'check_incremental: unknown audited column {col}')
-            if got != want:
-                wrong = (state, marked_job, ar, gc, got, want)
+        def is_cores(nd: N) -> bool:
+            if nd.kind != 'col' or nd.parts[-1].lower() != 'cores_mcpu':
+                return False
+            d = vcols.get('cores_mcpu')
+            return len(nd.parts) > 1 or d is None or (d.kind == 'col' and d.parts[-1].lower() == 'cores_mcpu')
+        # linear normal form a + b * cores_mcpu with cores symbolic; a and b are truth-tabled over the finite state / flag domain
+        lin = cf.linear_in(inner, is_cores)
+        ctx.need(lin is not None, f'check_incremental: {alias} is not linear in cores_mcpu')
+        assert lin is not None
+        want_a, want_b = (None, CORES_OF[col]) if col in CORES_OF else (col, None)
+        wrong = None
+        for part, got_e, want_col in (('', lin[0], want_a), (' per unit of cores_mcpu', lin[1], want_b)):
+            for state, marked_job, ar, gc in itertools.product(STATES, (0, 1), (0, 1), (0, 1)):
+                def env(cn: N, depth=0):
+                    name = text(cn).lower()
+                    last = name.split('.')[-1]
+                    if name == f'{lat_alias}.cancelled':
+                        return 1 if gc else None
+                    if last in vcols and len(cn.parts) == 1 and text(vcols[last]).lower() != name:
+                        return ev(vcols[last], env)
+                    return {'state': state, 'always_run': ar, 'cancelled': marked_job}[last]
+                got = ev(got_e, env) if got_e is not None else 0
+                want = _spec(want_col, state, int(marked_job or gc), ar, 1) if want_col is not None else 0
+                if got != want:
+                    wrong = (state, marked_job, ar, gc, got, want, part)
+                    break
+            if wrong:
                 break
         if wrong:
             ctx.bad('R2', f'{cons0}::{alias}', f'audit recomputation of {col} for a {wrong[0]} job (cancelled={wrong[1]}, always_run={wrong[2]}, group_cancelled={wrong[3]}) '
-                    f'counts {wrong[4]}, the specification counts {wrong[5]}', m.path, e.lineno)
+                    f'counts {wrong[4]}{wrong[6]}, the specification counts {wrong[5]}{wrong[6]}', m.path, e.lineno)
         else:
             ctx.ok('R2', f'{cons0}::{alias}', {'points': 64})
         n += 1
@@ -1139,7 +1184,7 @@ def _root_cancel_refusal(m: pf.Module, fn: pf.FuncDef, e2: sf.Embedded, target: 
         return ''
     sel = sts[0]
     tabs = [t.lower() for t in sf.table_names(sel.frm)]
-    if not tabs or tabs[0] not in ('batches', 'job_groups'):
+    if not tabs:
         return ''
     bind = _bind(e2, sel)
     if bind is None:
@@ -1158,7 +1203,7 @@ def _root_cancel_refusal(m: pf.Module, fn: pf.FuncDef, e2: sf.Embedded, target: 
             gnode = rl['group']
             if (gnode.kind == 'lit' and gnode.value == 0) or (gnode.kind == 'param' and _is_root_expr(m, bind.get(id(gnode)))):
                 lookups[t.alias.lower()] = t
-        elif sr.ancestor_walk(t.select) is not None and tabs[0] == 'job_groups':
+        elif sr.ancestor_walk(t.select) is not None and 'job_groups' in tabs:
             # walk from the job_groups row the outer query selects: must be the root row
             if any(c.kind == 'bin' and c.op == '=' and c.left.kind == 'col' and c.left.parts[-1].lower() == 'job_group_id' and c.right.kind == 'param'
                    and _is_root_expr(m, bind.get(id(c.right))) for c in sf.conjuncts(sel.where)):
@@ -1168,7 +1213,7 @@ def _root_cancel_refusal(m: pf.Module, fn: pf.FuncDef, e2: sf.Embedded, target: 
         if al and c.kind == 'isnull' and c.negated and c.arg.kind == 'col' and len(c.arg.parts) == 2 and c.arg.parts[0].lower() in lookups:
             flag = al
     if flag is None:
-        return 'blind'
+        return 'blind' if tabs[0] in ('batches', 'job_groups', 'batch_updates') else ''
     rec = _assigned_name(m, e2.call)
     g = pf.cfg(fn)
     assign = g.node_of(e2.call)
@@ -1311,6 +1356,7 @@ def r12_readers(ctx: Ctx, prog: sf.SqlProgram, dirs: List[str]) -> None:
     msg = ('the counters are sharded over `token` rows (the trigger adds to a random shard, the cancel procedures subtract from shard 0, so single shards are arbitrary, even negative): '
            'only SUM over all shards equals the recomputation from job states')
     n = 0
+    seen: Dict[str, int] = {}
 
     def judge(cons: str, st: N, file: str, line: int) -> None:
         nonlocal n
@@ -1319,7 +1365,8 @@ def r12_readers(ctx: Ctx, prog: sf.SqlProgram, dirs: List[str]) -> None:
             if reads or probs:
                 n += 1
                 names = [t.lower() for t in sf.table_names(sel.frm) if t.lower() in SHARDED]
-                ctx.check(not probs, 'R12', f'{cons}::reads {names[0]}', f'{"; ".join(probs[:3])}: {msg}', file, line)
+                seen[cons] = seen.get(cons, 0) + 1
+                ctx.check(not probs, 'R12', f'{cons}::reads {names[0]}' + (f' #{seen[cons]}' if seen[cons] > 1 else ''), f'{"; ".join(probs[:3])}: {msg}', file, line)
 
     for name, r in sorted(prog.routines.items()):
         for st in sf.all_statements(r.ast.body):
@@ -1356,6 +1403,33 @@ def _free_literal(c: N, params: set) -> Optional[bool]:
     if atoms and all(a.kind == 'col' and len(a.parts) == 1 and a.parts[0].lower() in params for a in atoms):
         return True
     return None
+
+
+def _holds_on_ranges(c: N, pol: bool, ranges: Dict[str, Tuple[int, Optional[int]]]) -> Any:
+    """Order reasoning for a guard literal `V op k` (V a variable with a known integer range [lo, hi], hi None = unbounded):
+    True = holds (with the given polarity) for every value in the range; (False, witness) = fails for some value; None = not of that shape."""
+    if not (c.kind == 'bin' and c.op in ('=', '!=', '<>', '<', '<=', '>', '>=')):
+        return None
+    flip = {'<': '>', '<=': '>=', '>': '<', '>=': '<=', '=': '=', '!=': '!=', '<>': '!='}
+    if sr.is_var(c.left) and c.right.kind == 'lit' and isinstance(c.right.value, int) and not isinstance(c.right.value, bool):
+        v, op, k = c.left.parts[0].lower(), c.op, c.right.value
+    elif sr.is_var(c.right) and c.left.kind == 'lit' and isinstance(c.left.value, int) and not isinstance(c.left.value, bool):
+        v, op, k = c.right.parts[0].lower(), flip[c.op], c.left.value
+    else:
+        return None
+    if v not in ranges:
+        return None
+    op = '!=' if op == '<>' else op
+    if not pol:
+        op = {'=': '!=', '!=': '=', '<': '>=', '<=': '>', '>': '<=', '>=': '<'}[op]
+    lo, hi = ranges[v]
+    always = {'>': lo > k, '>=': lo >= k, '<': hi is not None and hi < k, '<=': hi is not None and hi <= k,
+              '=': hi is not None and lo == hi == k, '!=': k < lo or (hi is not None and k > hi)}[op]
+    if always:
+        return True
+    # a falsifying member of the range (printed as the witness only)
+    w = {'>': lo, '>=': lo, '<': max(lo, k), '<=': max(lo, k + 1), '=': lo if lo != k else lo + 1, '!=': k}[op]
+    return (False, f' (false for {v} = {w})')
 
 
 def r9_procedures(ctx: Ctx, prog: sf.SqlProgram) -> None:
@@ -1421,31 +1495,27 @@ def r9_procedures(ctx: Ctx, prog: sf.SqlProgram) -> None:
         missing = lits(kc) - lits(kr)
         ctx.need(not any(x[0] == 'exit' for x in (lits(kr) ^ lits(kc))), 'commit_batch_update: early exits between the commit flag and the roll-up are not analysed')
         bad_lit = None
-        first_only = _ready_only_first_update()
+        # integer ranges of the quantities an extra guard may legitimately test: at least one job in the update (with zero jobs nothing is staged);
+        # and, when the front end stages Ready jobs only for update_id == 1, the only update whose roll-up is non-zero
+        ranges: Dict[str, Tuple[int, Optional[int]]] = {'expected_n_jobs': (1, None), 'staging_n_jobs': (1, None)}
+        if _ready_only_first_update():
+            ranges['in_update_id'] = (1, 1)
+        witness = ''
         for c, pol in extra:
-            # allowed: a "there is at least one job" test -- with zero jobs there is nothing staged
-            ok_all = True
-            for k in (1, 2, 5):
-                def known(nd: N, k=k) -> Any:
-                    if nd.kind == 'col' and len(nd.parts) == 1 and nd.parts[0].lower() in ('expected_n_jobs', 'staging_n_jobs'):
-                        return k
-                    if first_only and nd.kind == 'col' and len(nd.parts) == 1 and nd.parts[0].lower() == 'in_update_id':
-                        return 1  # later updates stage no Ready jobs (the front end inserts them Pending), so only update 1 matters
-                    return cf.UNKNOWN
-                mv = cf.may(c, known)
-                if mv != ({True} if pol else {False}):
-                    ok_all = False
-            if not ok_all:
+            verdict = _holds_on_ranges(c, pol, ranges)
+            if verdict is not True:
                 bad_lit = (c, pol)
+                witness = verdict[1] if isinstance(verdict, tuple) else ''
+                undecidable = verdict is None
                 break
         if bad_lit is None and not missing:
             ctx.ok('R9', cons)
         else:
             if bad_lit is not None:
-                ctx.need(_free_literal(bad_lit[0], params | {'expected_n_jobs', 'staging_n_jobs'}), f'commit_batch_update: the roll-up is additionally guarded by `{text(bad_lit[0])}` which depends on more than '
+                ctx.need(not undecidable or _free_literal(bad_lit[0], params), f'commit_batch_update: the roll-up is additionally guarded by `{text(bad_lit[0])}` which depends on more than '
                          'the procedure\'s parameters and the job counts')
                 ctx.bad('R9', cons, f'the update is marked committed but the staged n_ready_jobs / ready_cores_mcpu are only added to {USER_TBL} when additionally '
-                        f'`{"" if bad_lit[1] else "NOT "}{text(bad_lit[0])}`: for the other inputs the Ready jobs of the update are never counted (they are inserted Ready, so no trigger will ever add them)',
+                        f'`{"" if bad_lit[1] else "NOT "}{text(bad_lit[0])}`{witness}: for the other inputs the Ready jobs of the update are never counted (they are inserted Ready, so no trigger will ever add them)',
                         r.file, r.line_of(roll[0]))
             else:
                 ctx.bad('R9', cons, f'the staged counts are added under a weaker condition than the commit flag is set (missing {sorted(map(str, missing))}): a repeated or failed commit adds them again',
@@ -1463,12 +1533,14 @@ def run(ctx: Ctx) -> None:
     ctx.rule('R6', 'closed world of writers of the counter tables; cleanup deletes keyed by the selected triple and filtered (committed / cancelled)', 18)
     ctx.rule('R7', 'commit_batch_update adds exactly the root-group staging sums of (batch, update), once, in the not-yet-committed branch', 7)
     ctx.rule('R8', 'no UPDATE changes the job columns the trigger treats as immutable (always_run, cores_mcpu, inst_coll, job_group_id, update_id, keys)', 8)
-    ctx.rule('R9', 'counter maintenance is unconditional in what it applies: executing the whole jobs_after_update body (guards, ELSE arms, early exits) applies spec(NEW) - spec(OLD) '
-             'to every counter column on every domain point; in the cancel / commit procedures the statements that belong together run under one condition', 13)
+    ctx.rule('R9', 'counter maintenance is unconditional in what it carries: on every path of jobs_after_update (three-valued guards over the exhaustive state x flag domain, '
+             'case splits on anything else) the upsert carrying a column runs exactly once wherever the recomputation changes it; in the cancel / commit procedures the statements '
+             'that belong together run under one path condition', 18)
     ctx.rule('R10', 'no cancellation mark for a group of an uncommitted update: job_groups_cancelled is written only by the cancel procedures for their own argument, and every '
-             'Python CALL cancel_job_group is for the root group or dominated by a "creating update committed OR root" row check keyed by the same (batch, group)', 0)
-    ctx.rule('R11', 'every call path to commit_batch_update refuses a batch whose root group is cancelled (or commits an update opened in the same request by a creator that refuses it)', 0)
-    ctx.rule('R12', 'every reader of the sharded counter tables reads SUM over all token shards (no per-shard column, filter, HAVING or GROUP BY token)', 0)
+             'Python CALL cancel_job_group is for the root group or dominated by a "creating update committed OR root" row check keyed by the same (batch, group)', 4)
+    ctx.rule('R11', 'every call path to commit_batch_update refuses a batch whose root group is cancelled (or commits an update opened in the same request by a creator that refuses it)', 4)
+    ctx.rule('R12', 'every reader of the sharded counter tables reads SUM over all token shards (no per-shard column, filter, HAVING or GROUP BY token)', 13)
+    ctx.assume('the Python CALL sites of cancel_job_group / commit_batch_update are the literal execute-style calls under the scanned directories (no dynamically built SQL)')
     ctx.assume('MySQL: AFTER UPDATE trigger fires once per updated row; ON DUPLICATE KEY UPDATE runs instead of the insert for an existing key')
     prog = sf.load_program()
     ctx.unit('migration_scripts_replayed', len(prog.scripts))
